@@ -1,6 +1,7 @@
 /-
-  Proofs.C06Update — the carried invariant through `_apply_update`: the checked branch, the
-  "unchanged by `==`" branch (no uniqueness check in the code), the loop and the upsert.
+  Proofs.C06Update — the carried invariant through `_apply_update`: both branches of the change
+  test ("modified" and "unchanged by `==`") store the edited document and run `_ensure_uniques`;
+  the loop and the upsert.
 -/
 import Proofs.C06Ops
 
@@ -9,280 +10,56 @@ set_option linter.unusedSimpArgs false
 namespace MongoModel.Proofs.C06Lemmas
 open MongoModel MongoModel.Spec
 
-/-! ### store keys -/
-
-/-- pairwise different under `==`, in both orientations -/
-def KS (ks : List Val) : Prop := ks.Pairwise (fun a b => pyEq a b = false ∧ pyEq b a = false)
-
-theorem keysDistinctSym_of {c : Coll} (h : KeysDistinct c) (hs : ∀ p ∈ c.docs, SymmVal p.1) :
-    KeysDistinctSym c := by
-  unfold KeysDistinctSym
-  unfold KeysDistinct at h
-  rw [List.pairwise_iff_forall_sublist] at h ⊢
-  intro a b hab
-  have := h hab
-  exact ⟨this, by rw [← hs a (pair_mem hab).1 b.1]; exact this⟩
-
-theorem ks_of_sym {c : Coll} (h : KeysDistinctSym c) : KS (c.docs.map (·.1)) := by
-  unfold KS
-  rw [List.pairwise_map]
-  exact h
-
-theorem ks_count {K : List Val} (hK : KS K) {k : Val} (hk : k ∈ K) :
-    (K.filter (fun x => pyEq x k)).length ≤ 1 := by
-  induction K with
-  | nil => cases hk
-  | cons a K ih =>
-    unfold KS at hK
-    rw [List.pairwise_cons] at hK
-    rcases List.mem_cons.1 hk with rfl | hm
-    · have : K.filter (fun x => pyEq x k) = [] := by
-        rw [List.filter_eq_nil_iff]
-        intro b hb
-        simp [(hK.1 b hb).2]
-      rw [List.filter_cons, this]
-      split <;> simp
-    · rw [List.filter_cons, (hK.1 k hm).1]
-      simpa using ih hK.2 hm
-
-theorem entry_count {K : List Val} (hK : KS K) {k : Val} (hk : k ∈ K) {docs : List (Val × Val)}
-    (hs : (docs.map (·.1)).Sublist K) : (docs.filter (fun p => pyEq p.1 k)).length ≤ 1 := by
-  have h1 := ks_count hK hk
-  have h2 : ((docs.map (·.1)).filter (fun x => pyEq x k)).length ≤ 1 :=
-    Nat.le_trans (hs.filter _).length_le h1
-  rw [List.filter_map, List.length_map] at h2
-  exact h2
-
-theorem eq_of_count_le_one {α : Type} {l : List α} {x y : α} (h : l.length ≤ 1) (hx : x ∈ l)
-    (hy : y ∈ l) : x = y := by
-  match l, h with
-  | [z], _ =>
-    rw [List.mem_singleton] at hx hy
-    rw [hx, hy]
-  | [], _ => cases hx
-
-/-! ### the partial filters do not tell `==`-equal documents apart -/
-
-theorem pfOk_stable {c : Coll} (hP : PfStable c) {ix : Index} (hix : ix ∈ c.indexes)
-    (hu : ix.unique = true) {new cur : Val} (hw : wfVal new = true) (he : pyEq new cur = true)
-    (h : pfOk ix new = true) : pfOk ix cur = true := by
-  unfold pfOk at h ⊢
-  cases hf : ix.partialFilter with
-  | none => rfl
-  | some f =>
-    rw [hf] at h
-    simp only at h ⊢
-    cases hn : filterApplies f new with
-    | error e => rw [hn] at h; cases h
-    | ok b =>
-      rw [hn] at h
-      simp only at h
-      subst h
-      rw [hP ix hix hu f hf cur new hw he hn]
-
-theorem scalarKeys_of_okKeys {ix : Index} {new cur : Val} (h : scalarKeys ix new = true)
-    (hc : OkKeys ix.keys cur) : scalarKeys ix cur = true := by
-  simp only [scalarKeys, List.all_eq_true, Bool.and_eq_true] at h ⊢
-  intro k hk
-  exact ⟨(h k hk).1, (hc k hk).2.2⟩
-
-/-- a good document `==` to another one (on the left): the other one is good, with an equal key -/
-theorem good_of_pyEq {c : Coll} (hP : PfStable c) {ix : Index} (hix : ix ∈ c.indexes)
-    (hu : ix.unique = true) {new cur : Val} (he : pyEq new cur = true) {x y : Val}
-    (hg : good ix (x, new) = true) :
-    good ix (y, cur) = true ∧ keyEq (kv ix.keys new) (kv ix.keys cur) = true ∧
-      OkKeys ix.keys new ∧ OkKeys ix.keys cur := by
-  obtain ⟨hw, hs, hc⟩ := good_iff.1 hg
-  simp only at hw hs hc
-  have okn := okKeys_of_scalarKeys hs
-  obtain ⟨okc, hk⟩ := okKeys_pyEq hw he okn
-  refine ⟨good_iff.2 ⟨wf_of_pyEq new cur hw he, scalarKeys_of_okKeys hs okc, ?_⟩, hk, okn, okc⟩
-  simp only
-  rw [covers_eq, Bool.and_eq_true, Bool.not_eq_true'] at hc ⊢
-  refine ⟨?_, pfOk_stable hP hix hu hw he hc.2⟩
-  cases hsp : ix.sparse with
-  | false => rfl
-  | true =>
-    rw [hsp, Bool.true_and] at hc
-    simp only [Bool.true_and]
-    cases hn : (kv ix.keys cur).all isNull with
-    | false => rfl
-    | true =>
-      have := keyEq_all_null (kv_allScalar okn) hk hn
-      rw [this] at hc
-      exact absurd hc.1 (by simp)
-
-/-! ### the "unchanged" branch -/
-
-theorem lookup_some {c : Coll} {k cur : Val} (h : c.lookup k = some cur) :
-    ∃ p ∈ c.docs, pyEq p.1 k = true ∧ p.2 = cur := by
-  unfold Coll.lookup at h
-  cases hf : c.docs.find? (fun p => pyEq p.1 k) with
-  | none => rw [hf] at h; cases h
-  | some p =>
-    rw [hf] at h
-    simp only [Option.map_some, Option.some.injEq] at h
-    exact ⟨p, List.mem_of_find?_eq_some hf, by simpa using List.find?_some hf, h⟩
-
-theorem hasKey_of_lookup {c : Coll} {k cur : Val} (h : c.lookup k = some cur) :
-    c.hasKey k = true := by
-  obtain ⟨p, hp, hk, _⟩ := lookup_some h
-  unfold Coll.hasKey
-  exact List.any_eq_true.2 ⟨p, hp, hk⟩
-
-theorem setDoc_keys {c : Coll} {k : Val} (d : Val) (h : c.hasKey k = true) :
-    (c.setDoc k d).docs.map (·.1) = c.docs.map (·.1) := by
-  rw [setDoc_docs_map d h, List.map_map]
-  apply List.map_congr_left
-  intro p _
-  simp only [Function.comp]
-  split <;> rfl
-
-/-- storing a document that is `==` to the one it replaces (no `_ensure_uniques`) -/
-theorem uniqS_silent {c : Coll} {k cur new : Val} (hU : UniqS c) (hP : PfStable c)
-    (h1 : (c.docs.filter (fun p => pyEq p.1 k)).length ≤ 1)
-    (hl : c.lookup k = some cur) (he : pyEq new cur = true) : UniqS (c.setDoc k new) := by
-  have hk := hasKey_of_lookup hl
-  obtain ⟨p, hp, hpk, hpc⟩ := lookup_some hl
-  have hpf : p ∈ c.docs.filter (fun p => pyEq p.1 k) := List.mem_filter.2 ⟨hp, hpk⟩
-  intro ix hix hu hd a b hab ga gb
-  rw [setDoc_indexes] at hix
-  rw [setDoc_docs_map new hk] at hab
-  obtain ⟨a0, b0, hl0, ea, eb⟩ := pair_of_sublist_map hab
-  obtain ⟨ma, mb⟩ := pair_mem hl0
-  by_cases ta : pyEq a0.1 k = true
-  · have ha0 : a0 = p := eq_of_count_le_one h1 (List.mem_filter.2 ⟨ma, ta⟩) hpf
-    by_cases tb : pyEq b0.1 k = true
-    · exfalso
-      have : [a0, b0].Sublist (c.docs.filter (fun p => pyEq p.1 k)) :=
-        sublist_pair_filter.2 ⟨hl0, ta, tb⟩
-      have := this.length_le
-      simp at this
-      omega
-    · simp only [ta, if_true] at ea
-      simp only [tb] at eb
-      subst ea; subst eb
-      have hcur : a0.2 = cur := by rw [ha0]; exact hpc
-      obtain ⟨g0, hke, okn, okc⟩ := good_of_pyEq hP hix hu he (y := a0.1) ga
-      have g0' : good ix a0 = true := by
-        have : a0 = (a0.1, cur) := by rw [← hcur]
-        rw [this]; exact g0
-      have hr := hU ix hix hu hd a0 b hl0 g0' gb
-      unfold Rk at hr ⊢
-      rw [keyVals_eq, keyVals_eq] at hr ⊢
-      rw [hcur] at hr
-      have okb := okKeys_of_scalarKeys (good_iff.1 gb).2.1
-      simp only
-      rw [keyEq_congr_left (kv_allScalar okn) (kv_allScalar okc) (kv_allScalar okb) hke]
-      exact hr
-  · simp only [ta] at ea
-    by_cases tb : pyEq b0.1 k = true
-    · have hb0 : b0 = p := eq_of_count_le_one h1 (List.mem_filter.2 ⟨mb, tb⟩) hpf
-      simp only [tb, if_true] at eb
-      subst ea; subst eb
-      have hcur : b0.2 = cur := by rw [hb0]; exact hpc
-      obtain ⟨g0, hke, okn, okc⟩ := good_of_pyEq hP hix hu he (y := b0.1) gb
-      have g0' : good ix b0 = true := by
-        have : b0 = (b0.1, cur) := by rw [← hcur]
-        rw [this]; exact g0
-      have hr := hU ix hix hu hd a b0 hl0 ga g0'
-      unfold Rk at hr ⊢
-      rw [keyVals_eq, keyVals_eq] at hr ⊢
-      rw [hcur] at hr
-      have oka := okKeys_of_scalarKeys (good_iff.1 ga).2.1
-      simp only
-      rw [keyEq_symm (kv_allScalar oka) (kv_allScalar okn),
-        keyEq_congr_left (kv_allScalar okn) (kv_allScalar okc) (kv_allScalar oka) hke,
-        keyEq_symm (kv_allScalar okc) (kv_allScalar oka)]
-      exact hr
-    · simp only [tb] at eb
-      subst ea; subst eb
-      exact hU ix hix hu hd a b hl0 ga gb
-
 /-! ### the loop -/
 
-theorem pfStable_of_indexes {c c' : Coll} (h : PfStable c) (hi : c'.indexes = c.indexes) :
-    PfStable c' := by
-  intro ix hix
-  rw [hi] at hix
-  exact h ix hix
-
-theorem pyEq_of_ordered {a b : Val} (h : pyEqOrdered a b = true) : pyEq a b = true := by
-  unfold pyEqOrdered at h
-  split at h
-  · simp only [Bool.and_eq_true] at h; exact h.1
-  · exact h
-
-theorem updateLoop_inv (K : List Val) (hK : KS K) (now : Int) (spec document nowV : Val)
-    (multi : Bool) (snap : List (Val × Val)) (c : Coll) (m u : Nat)
-    (hsnap : ∀ p ∈ snap, p.1 ∈ K) (hkeys : (c.docs.map (·.1)).Sublist K)
-    (hU : UniqS c) (hP : PfStable c) :
-    UniqS (updateLoop now spec document nowV multi snap c m u).1 ∧
-    (updateLoop now spec document nowV multi snap c m u).1.indexes = c.indexes := by
+theorem updateLoop_inv (now : Int) (spec document nowV : Val)
+    (multi : Bool) (snap : List (Val × Val)) (c : Coll) (m u : Nat) (hU : UniqS c) :
+    UniqS (updateLoop now spec document nowV multi snap c m u).1 := by
   induction snap generalizing c m u with
-  | nil => unfold updateLoop; exact ⟨hU, rfl⟩
+  | nil => unfold updateLoop; exact hU
   | cons kv rest ih =>
     obtain ⟨key, v⟩ := kv
-    have hrest : ∀ p ∈ rest, p.1 ∈ K := fun p hp => hsnap p (List.mem_cons_of_mem _ hp)
-    have hkey : key ∈ K := hsnap (key, v) (List.mem_cons_self ..)
     unfold updateLoop
     cases hl : c.lookup key with
-    | none => exact ih c m u hrest hkeys hU hP
+    | none => exact ih c m u hU
     | some cur =>
       dsimp only
       cases hf : filterApplies spec cur with
-      | error e => exact ⟨hU, rfl⟩
+      | error e => exact hU
       | ok b =>
         cases b with
-        | false => exact ih c m u hrest hkeys hU hP
+        | false => exact ih c m u hU
         | true =>
           dsimp only
           cases ha : applyUpdate spec document nowV false cur with
-          | error e => exact ⟨hU, rfl⟩
+          | error e => exact hU
           | ok new =>
             dsimp only
-            have hhas := hasKey_of_lookup hl
             by_cases hb : (if c.isOD key then pyEqOrdered new cur else pyEq new cur) = true
-            · rw [if_pos hb]
-              have he : pyEq new cur = true := by
-                split at hb
-                · exact pyEq_of_ordered hb
-                · exact hb
-              have hU0 : UniqS (c.setDoc key new) :=
-                uniqS_silent hU hP (entry_count hK hkey hkeys) hl he
-              have hi0 : (c.setDoc key new).indexes = c.indexes := setDoc_indexes c key new
-              have hk0 : ((c.setDoc key new).docs.map (·.1)).Sublist K := by
-                rw [setDoc_keys new hhas]; exact hkeys
-              cases multi with
-              | true =>
-                simp only [if_true]
-                obtain ⟨r1, r2⟩ := ih (c.setDoc key new) (m + 1) u hrest hk0 hU0
-                  (pfStable_of_indexes hP hi0)
-                exact ⟨r1, r2.trans hi0⟩
-              | false => exact ⟨hU0, hi0⟩
+            · -- "unchanged by `==`": stored and checked all the same
+              rw [if_pos hb]
+              cases hu : ensureUniques now (c.setDoc key new) new with
+              | error e => exact hU
+              | ok c2 =>
+                dsimp only
+                have hU2 : UniqS c2 := uniqS_checked_write hU hu
+                cases multi with
+                | true => simp only [if_true]; exact ih c2 (m + 1) u hU2
+                | false => exact hU2
             · rw [if_neg hb]
               generalize (!pyEqOpt _ _) = q
               cases q with
-              | true => exact ⟨hU, rfl⟩
+              | true => exact hU
               | false =>
                 simp only [Bool.false_eq_true, if_false]
                 cases hu : ensureUniques now (c.setDoc key new) new with
-                | error e => exact ⟨hU, rfl⟩
+                | error e => exact hU
                 | ok c2 =>
                   dsimp only
                   have hU2 : UniqS c2 := uniqS_checked_write hU hu
-                  obtain ⟨hs2, hi2⟩ := sub_ensure hu
-                  have hi2' : c2.indexes = c.indexes := hi2.trans (setDoc_indexes c key new)
-                  have hk2 : (c2.docs.map (·.1)).Sublist K := by
-                    refine (hs2.map _).trans ?_
-                    rw [setDoc_keys new hhas]; exact hkeys
                   cases multi with
-                  | true =>
-                    simp only [if_true]
-                    obtain ⟨r1, r2⟩ := ih c2 (m + 1) (u + 1) hrest hk2 hU2
-                      (pfStable_of_indexes hP hi2')
-                    exact ⟨r1, r2.trans hi2'⟩
-                  | false => exact ⟨hU2, hi2'⟩
+                  | true => simp only [if_true]; exact ih c2 (m + 1) (u + 1) hU2
+                  | false => exact hU2
 
 /-! ### `_apply_update` -/
 
@@ -304,7 +81,7 @@ theorem sub_pre (now : Int) (c c2 : Coll) (spec : Val)
     · exact n1.trans (sub_expire h)
 
 theorem uniqS_applyUpdate (cfg : Cfg) (now : Int) (c c' : Coll) (f u : Val) (up multi : Bool)
-    (r : R UpdateResult) (hU : UniqS c) (hP : PfStable c) (hK : KeysDistinctSym c)
+    (r : R UpdateResult) (hU : UniqS c)
     (h : applyUpdateColl cfg now c f u up multi = (c', r)) : UniqS c' := by
   unfold applyUpdateColl at h
   extract_lets spec document nowV at h
@@ -318,18 +95,11 @@ theorem uniqS_applyUpdate (cfg : Cfg) (now : Int) (c c' : Coll) (f u : Val) (up 
       · rename_i c2 hc2
         have n2 : Sub c c2 := sub_pre now c c2 _ hc2
         have hU2 := hU.sub n2
-        have hP2 := pfStable_of_indexes hP n2.2
-        have hK2 : KS (c2.docs.map (·.1)) := by
-          unfold KS
-          rw [List.pairwise_map]
-          exact List.Pairwise.sublist n2.1 hK
         split at h
         rename_i c3 r3 hloop
-        obtain ⟨hU3, hi3⟩ := updateLoop_inv (c2.docs.map (·.1)) hK2 now (Val.doc ss) (Val.doc dfs)
-          nowV multi c2.docs c2 0 0 (fun p hp => List.mem_map_of_mem (f := (·.1)) hp)
-          (List.Sublist.refl _) hU2 hP2
-        rw [hloop] at hU3 hi3
-        simp only at hU3 hi3
+        have hU3 := updateLoop_inv now (Val.doc ss) (Val.doc dfs) nowV multi c2.docs c2 0 0 hU2
+        rw [hloop] at hU3
+        simp only at hU3
         split at h
         · cases h; exact hU3
         · split at h
